@@ -333,10 +333,13 @@ def run_case(desc, ctx):
                 return
     # ---------------- (d) harmonic extension (n_smooth = 0, constrained elements present)
     if fixed and free and desc["n_smooth"] == 0:
+        # the reference operator is assembled on a fresh mesh object of the same surface (nothing cached on it by the field: the weights it uses
+        # are those of the `cotan` argument alone), with the field's own connection
+        ok, m_ref = ctx.call("build", build.surface, V, F, monitor="harmonic")
         if elements == "vertices":
-            ok, L = ctx.call("operators.laplacian", M.operators.laplacian, m, desc["cotan"], ff.conn, order, monitor="harmonic")
+            ok, L = ctx.call("operators.laplacian", M.operators.laplacian, m_ref, desc["cotan"], ff.conn, order, monitor="harmonic")
         else:
-            ok, L = ctx.call("operators.laplacian_triangles", M.operators.laplacian_triangles, m, desc["cotan"], ff.conn, order, monitor="harmonic")
+            ok, L = ctx.call("operators.laplacian_triangles", M.operators.laplacian_triangles, m_ref, desc["cotan"], ff.conn, order, monitor="harmonic")
         Ld = np.asarray(L.todense()) if hasattr(L, "todense") else np.asarray(L)
         ctx.obs("hermitian", elements)
         nrm = np.abs(Ld).max()
